@@ -10,8 +10,7 @@ Ltac splits := repeat match goal with |- _ /\ _ => split end.
 
 Definition okS (s : sst) : bool := s_wf s && negb (s_c20 s) && negb (s_c22 s).
 Definition sabs (n : nat) (s : sst) : ast :=
-  {| a_q := s_q s; a_m := marked n (s_ms s); a_d := s_d s; a_lw := s_lw s; a_ok := okS s |}.
-Definition slok (n : nat) (s : sst) : Prop := s_q s = sSlash -> s_sl s = n.
+  {| a_q := s_q s; a_m := marked n (s_ms s); a_d := s_d s; a_lw := s_lw s; a_sc := Nat.eqb (s_sl s) n; a_ok := okS s |}.
 Definition dm (ms : list nat) (d : dstate) : Prop := ms = [] <-> d = dNone.
 
 Lemma marked_mark n ms : marked n (mark n ms) = true.
@@ -34,50 +33,82 @@ Proof.
   - exfalso. destruct d, h; discriminate.
 Qed.
 
-Lemma sstep_abs n s c : slok n s ->
+Ltac fin_sstep n ms d Em :=
+  rewrite ?marked_mark, ?Em;
+  repeat match goal with |- _ /\ _ => split end; try reflexivity; try discriminate; try (intros; assumption);
+  try (symmetry; apply mark_marked; assumption);
+  try (intros _; apply dm_survive);
+  try (intros _; apply (dm_survive n (mark n ms) (match d with dNone => dSrc | d' => d' end) _));
+  try apply mark_idem;
+  try (intros _; split; intros H0; [exfalso; exact (mark_nonnil _ _ H0) | destruct d; discriminate H0]).
+
+Lemma sstep_abs n s c : okS (sstep n s c) = true ->
   sabs n (sstep n s c) = cstep (sabs n s) c /\
-  slok n (sstep n s c) /\
   s_out (sstep n s c) = s_out s /\ s_open (sstep n s c) = s_open s /\
   s_ms (sstep n s c) = (if a_m (cstep (sabs n s) c) then mark n (s_ms s) else s_ms s) /\
   (dm (s_ms s) (s_d s) -> dm (s_ms (sstep n s c)) (s_d (sstep n s c))).
 Proof.
-  destruct s as [q sl ms d op lw out wf c20 c22]. unfold slok. cbn [s_q s_sl]. intros Hsl.
-  destruct q; try (specialize (Hsl eq_refl); subst sl);
-  destruct c; unfold sabs, okS;
-  cbn -[mark marked];
-  try (destruct (marked n ms) eqn:Em; cbn -[mark marked]);
-  rewrite ?marked_mark, ?Em;
-  repeat split; try reflexivity; try discriminate; try (intros; assumption);
-  try (symmetry; apply mark_marked; assumption);
-  try (intros _; apply dm_survive);
-  try (intros _; apply (dm_survive n (mark n ms) (match d with dNone => dSrc | d' => d' end) _)).
-  all: try (intros H0; exfalso; exact (mark_nonnil _ _ H0)).
-  all: try (intros H0; exfalso; destruct d; discriminate H0).
-  all: try (match goal with H : dm _ _ |- _ => destruct H as [H1 H2]; assumption end).
-  all: apply mark_idem.
+  destruct s as [q sl ms d op lw out wf c20 c22]. unfold okS.
+  destruct (Nat.eqb sl n) eqn:Esl.
+  - apply Nat.eqb_eq in Esl. subst sl. intros _.
+    destruct q, c; unfold sabs, okS, far_slash;
+    cbn -[mark marked Nat.eqb]; rewrite ?Nat.eqb_refl; cbn -[mark marked Nat.eqb]; rewrite ?orb_false_r;
+    try (destruct (marked n ms) eqn:Em; cbn -[mark marked Nat.eqb]); rewrite ?Nat.eqb_refl;
+    fin_sstep n ms d Em.
+  - destruct q, c; unfold sabs, okS, far_slash;
+    cbn -[mark marked Nat.eqb]; rewrite ?Esl, ?Nat.eqb_refl; cbn -[mark marked Nat.eqb];
+    rewrite ?orb_true_r, ?andb_false_r; cbn -[mark marked Nat.eqb];
+    intros Hok; try discriminate Hok;
+    try (destruct (marked n ms) eqn:Em; cbn -[mark marked Nat.eqb]); rewrite ?Esl, ?Nat.eqb_refl;
+    fin_sstep n ms d Em.
 Qed.
 
+(* ---------- monotonicity of the well-formedness / class flags of S ---------- *)
+Lemma okS_mono_step n s c : okS (sstep n s c) = true -> okS s = true.
+Proof.
+  destruct s as [q sl ms d op lw out wf c20 c22]. unfold okS.
+  destruct q, c; unfold far_slash; cbn -[mark marked Nat.eqb]; try (destruct (marked n ms); cbn -[mark marked Nat.eqb]);
+    intros H; try exact H; try discriminate H;
+    destruct wf, c20, c22, (Nat.eqb sl n); cbn in *; try discriminate H; reflexivity.
+Qed.
+Lemma okS_mono_fold n cs : forall s, okS (fold_left (sstep n) cs s) = true -> okS s = true.
+Proof.
+  induction cs as [|c cs IH]; intros s H; [exact H|]. apply okS_mono_step with n c. apply IH. exact H.
+Qed.
+Lemma okS_mono_eol n continued s : okS (s_eol n continued s) = true -> okS s = true.
+Proof.
+  destruct s as [q sl ms d op lw out wf c20 c22]. unfold okS, s_eol.
+  destruct continued, q; unfold far_slash; cbn -[mark marked Nat.eqb]; destruct wf, c20, c22, (Nat.eqb sl n); cbn; intros H; try exact H; try discriminate H; reflexivity.
+Qed.
+Lemma okS_mono_line n s l : okS (s_line n s l) = true -> okS s = true.
+Proof. unfold s_line. intros H. apply okS_mono_eol in H. apply okS_mono_fold in H. exact H. Qed.
+Lemma okS_mono_lines ls : forall n s, okS (s_lines n s ls) = true -> okS s = true.
+Proof.
+  induction ls as [|l ls IH]; intros n s H; [exact H|]. cbn [s_lines] in H.
+  apply IH in H. apply okS_mono_line in H. exact H.
+Qed.
+
+
 Lemma m_mono_step a c : a_m a = true -> a_m (cstep a c) = true.
-Proof. destruct a as [q m d w ok]. cbn [a_m]. intros ->. destruct q, c; reflexivity. Qed.
+Proof. destruct a as [q m d w sc ok]. cbn [a_m]. intros ->. destruct q, c, sc; reflexivity. Qed.
 Lemma m_mono_fold cs : forall a, a_m a = true -> a_m (fold_left cstep cs a) = true.
 Proof. induction cs as [|c cs IH]; intros a H; [exact H|]. apply IH. apply m_mono_step. exact H. Qed.
 
-Lemma sfold_abs n cs : forall s, slok n s ->
+Lemma sfold_abs n cs : forall s, okS (fold_left (sstep n) cs s) = true ->
   sabs n (fold_left (sstep n) cs s) = fold_left cstep cs (sabs n s) /\
-  slok n (fold_left (sstep n) cs s) /\
   s_out (fold_left (sstep n) cs s) = s_out s /\ s_open (fold_left (sstep n) cs s) = s_open s /\
   s_ms (fold_left (sstep n) cs s) =
     (if a_m (fold_left cstep cs (sabs n s)) then mark n (s_ms s) else s_ms s) /\
   (dm (s_ms s) (s_d s) -> dm (s_ms (fold_left (sstep n) cs s)) (s_d (fold_left (sstep n) cs s))).
 Proof.
-  induction cs as [|c cs IH]; intros s Hs; cbn [fold_left].
+  induction cs as [|c cs IH]; intros s Hok; cbn [fold_left] in *.
   - splits; auto.
     unfold sabs; cbn [a_m]. destruct (marked n (s_ms s)) eqn:E; [symmetry; apply mark_marked; exact E | reflexivity].
-  - destruct (sstep_abs n s c Hs) as (A1 & A2 & A3 & A4 & A5 & A6).
-    destruct (IH (sstep n s c) A2) as (B1 & B2 & B3 & B4 & B5 & B6).
+  - pose proof (okS_mono_fold _ _ _ Hok) as Hok1.
+    destruct (sstep_abs n s c Hok1) as (A1 & A3 & A4 & A5 & A6).
+    destruct (IH (sstep n s c) Hok) as (B1 & B3 & B4 & B5 & B6).
     rewrite A1 in B1, B5. splits.
     + exact B1.
-    + exact B2.
     + congruence.
     + congruence.
     + rewrite B5, A5.
@@ -102,7 +133,7 @@ Qed.
 
 Definition d_is_dir (d : dstate) : bool := match d with dDir => true | _ => false end.
 
-Lemma s_eol_abs n continued s : slok n s -> marks_le n (s_ms s) ->
+Lemma s_eol_abs n continued s : okS (s_eol n continued s) = true -> marks_le n (s_ms s) -> s_sl s <= n ->
   let e := c_eol continued (sabs n s) in
   let s' := s_eol n continued s in
   let ms_pre := if e_counted e then mark n (s_ms s) else s_ms s in
@@ -114,15 +145,24 @@ Lemma s_eol_abs n continued s : slok n s -> marks_le n (s_ms s) ->
   (dm (s_ms s) (s_d s) -> dm ms_pre (e_d e)) /\
   marks_le n ms_pre.
 Proof.
-  destruct s as [q sl ms d op lw out wf c20 c22]. unfold slok. cbn [s_q s_sl s_ms s_d]. intros Hsl Hle.
+  destruct s as [q sl ms d op lw out wf c20 c22]. cbn [s_ms s_d s_sl]. intros Hok Hle Hsle.
   pose proof (marks_le_unmarked _ _ Hle) as Hu.
   pose proof (marks_le_unmarked _ _ (marks_le_mark _ _ Hle)) as Hu'.
   pose proof (marks_le_mark _ _ Hle) as Hle'.
-  destruct q; try (specialize (Hsl eq_refl); subst sl);
-  destruct continued; unfold sabs, okS, s_eol, c_eol;
-  cbn -[mark marked rev];
-  destruct (marked n ms) eqn:Em; cbn -[mark marked rev];
-  rewrite ?marked_mark, ?Em, ?Hu, ?Hu';
+  assert (Hsl : continued = true \/ q <> sSlash \/ sl = n).
+  { destruct continued; [left; reflexivity|]. destruct q; try (right; left; discriminate).
+    right. right. revert Hok. unfold okS, s_eol, far_slash. cbn -[mark marked Nat.eqb rev].
+    destruct (Nat.eqb sl n) eqn:E; [intros _; apply Nat.eqb_eq; exact E|].
+    rewrite orb_true_r. cbn. rewrite andb_false_r. discriminate. }
+  assert (Hne : Nat.eqb sl (S n) = false) by (apply Nat.eqb_neq; lia).
+  assert (Hne' : Nat.eqb n (S n) = false) by (apply Nat.eqb_neq; lia).
+  clear Hok.
+  destruct q; destruct continued;
+    try (destruct Hsl as [Hsl|[Hsl|Hsl]]; [discriminate Hsl | exfalso; apply Hsl; reflexivity | subst sl]);
+  unfold sabs, okS, s_eol, c_eol, far_slash;
+  cbn -[mark marked rev Nat.eqb]; rewrite ?Nat.eqb_refl; cbn -[mark marked rev Nat.eqb];
+  destruct (marked n ms) eqn:Em; cbn -[mark marked rev Nat.eqb];
+  rewrite ?marked_mark, ?Em, ?Hu, ?Hu', ?Hne, ?Hne';
   repeat match goal with |- _ /\ _ => split end;
   try reflexivity; try assumption;
   try (intros H; exact H);
@@ -133,45 +173,15 @@ Proof.
   all: try (intros _; split; intros H0; [exfalso; exact (mark_nonnil _ _ H0) | destruct d; discriminate H0]).
   all: unfold d_is_dir; try (destruct (mark n ms); [rewrite app_nil_r|]; reflexivity);
        try (destruct ms; [rewrite app_nil_r|]; reflexivity).
-  intros _. split; intros H0; [subst ms; discriminate Em | destruct d; discriminate H0].
-Qed.
-
-(* ---------- monotonicity of the well-formedness / class flags of S ---------- *)
-Lemma okS_mono_step n s c : okS (sstep n s c) = true -> okS s = true.
-Proof.
-  destruct s as [q sl ms d op lw out wf c20 c22]. unfold okS.
-  destruct q, c; cbn -[mark marked]; try (destruct (marked n ms); cbn -[mark marked]);
-    intros H; try exact H; try discriminate H.
-Qed.
-Lemma okS_mono_fold n cs : forall s, okS (fold_left (sstep n) cs s) = true -> okS s = true.
-Proof.
-  induction cs as [|c cs IH]; intros s H; [exact H|]. apply okS_mono_step with n c. apply IH. exact H.
-Qed.
-Lemma okS_mono_eol n continued s : okS (s_eol n continued s) = true -> okS s = true.
-Proof.
-  destruct s as [q sl ms d op lw out wf c20 c22]. unfold okS, s_eol.
-  destruct continued, q; cbn -[mark marked]; destruct wf, c20, c22; cbn; intros H; try exact H; try discriminate H; reflexivity.
-Qed.
-Lemma okS_mono_line n s l : okS (s_line n s l) = true -> okS s = true.
-Proof. unfold s_line. intros H. apply okS_mono_eol in H. apply okS_mono_fold in H. exact H. Qed.
-Lemma okS_mono_lines ls : forall n s, okS (s_lines n s ls) = true -> okS s = true.
-Proof.
-  induction ls as [|l ls IH]; intros n s H; [exact H|]. cbn [s_lines] in H.
-  apply IH in H. apply okS_mono_line in H. exact H.
+  all: try (intros _; split; intros H0; [subst ms; discriminate Em | destruct d; discriminate H0]).
 Qed.
 
 (* ---------- facts about c_eol ---------- *)
-Lemma ceol_q continued a :
-  a_ok (e_next (c_eol continued a)) = true -> a_q (e_next (c_eol continued a)) <> sSlash.
-Proof.
-  destruct a as [q m d w ok]. unfold c_eol. destruct continued, q; cbn; intros H; try discriminate;
-    repeat (apply andb_true_iff in H; destruct H as [H ?]); discriminate.
-Qed.
 Lemma ceol_counted_false continued a : e_counted (c_eol continued a) = false -> a_m a = false.
-Proof. destruct a as [q m d w ok]. unfold c_eol. destruct continued, q; cbn; intros H; try exact H; discriminate H. Qed.
+Proof. destruct a as [q m d w sc ok]. unfold c_eol. destruct continued, q; cbn; intros H; try exact H; discriminate H. Qed.
 Lemma ceol_d continued a :
   a_d (e_next (c_eol continued a)) = if e_ended (c_eol continued a) then dNone else e_d (c_eol continued a).
-Proof. destruct a as [q m d w ok]. unfold c_eol. destruct continued, q; reflexivity. Qed.
+Proof. destruct a as [q m d w sc ok]. unfold c_eol. destruct continued, q; reflexivity. Qed.
 
 Lemma mark_fresh n ms : (forall k, In k ms -> k < n) -> mark n ms = n :: ms.
 Proof.
@@ -180,13 +190,25 @@ Proof.
   apply Nat.eqb_eq in E. lia.
 Qed.
 
+Lemma sstep_sl n s c : s_sl s <= n -> s_sl (sstep n s c) <= n.
+Proof.
+  destruct s as [q sl ms d op lw out wf c20 c22]. cbn [s_sl]. intros H.
+  destruct q, c; unfold far_slash; cbn -[mark marked Nat.eqb]; try lia; destruct (marked n ms); cbn; lia.
+Qed.
+Lemma sfold_sl n cs : forall s, s_sl s <= n -> s_sl (fold_left (sstep n) cs s) <= n.
+Proof. induction cs as [|c cs IH]; intros s H; cbn [fold_left]; [exact H|]. apply IH. apply sstep_sl. exact H. Qed.
+Lemma s_eol_sl n continued s : s_sl (s_eol n continued s) = s_sl s.
+Proof.
+  destruct s as [q sl ms d op lw out wf c20 c22]. unfold s_eol, far_slash. destruct continued, q; reflexivity.
+Qed.
+
 (* ---------- the loop invariant between the abstract model and S ---------- *)
 Definition proj {B} (l : lline B) : list nat * bool :=
   (ll_lines l, match ll_cat l with CPPD => true | _ => false end).
 
 Record Inv (n : nat) (f : fs bcls) (s : sst) : Prop := {
   inv_rel : relb (fs_st f) bE (fs_L f) (sabs n s) = true;
-  inv_q : s_q s <> sSlash;
+  inv_sl : s_sl s <= n;
   inv_lt : forall k, In k (s_ms s) -> k < n;
   inv_lines : fs_lines f = rev (s_ms s);
   inv_out : map proj (fs_out f) = s_out s;
@@ -217,19 +239,20 @@ Lemma line_inv n f s l :
   Inv n f s -> okS (s_line n s l) = true -> Inv (S n) (phys_line absalg f n l) (s_line n s l).
 Proof.
   intros I Hok. destruct l as [body continued]. unfold s_line in *. cbn [fst snd] in *.
-  assert (Hs : slok n s) by (intros E; exfalso; exact (inv_q _ _ _ I E)).
-  destruct (sfold_abs n body s Hs) as (A1 & A2 & A3 & A4 & A5 & A6).
+  pose proof (okS_mono_eol _ _ _ Hok) as Hok1s.
+  destruct (sfold_abs n body s Hok1s) as (A1 & A3 & A4 & A5 & A6).
+  pose proof (sfold_sl n body s (inv_sl _ _ _ I)) as A2.
   remember (fold_left (sstep n) body s) as s1 eqn:Es1.
   remember (fold_left cstep body (sabs n s)) as a1 eqn:Ea1.
   assert (Hle1 : marks_le n (s_ms s1)).
   { rewrite A5. assert (H0 : marks_le n (s_ms s)) by (intros k Hk; apply (inv_lt _ _ _ I) in Hk; lia).
     destruct (a_m a1); [apply marks_le_mark|]; exact H0. }
-  destruct (s_eol_abs n continued s1 A2 Hle1) as (E1 & E2 & E3 & E4).
+  destruct (s_eol_abs n continued s1 Hok Hle1 A2) as (E1 & E2 & E3 & E4).
   rewrite A1 in E1, E2, E3, E4.
   remember (c_eol continued a1) as e eqn:Ee.
   remember (s_eol n continued s1) as s' eqn:Es'.
   assert (Hoke : a_ok (e_next e) = true) by (rewrite <- E1; exact Hok).
-  assert (Hok1 : a_ok a1 = true) by (apply ok_mono_eol with continued; rewrite <- Ee; exact Hoke).
+  assert (Hok1 : a_ok a1 = true) by (rewrite <- A1; exact Hok1s).
   pose proof (inv_rel _ _ _ I) as R0.
   assert (R1 := fold_sim (fs_L f) body (fs_st f) bE (sabs n s) R0).
   rewrite <- Ea1 in R1. specialize (R1 Hok1).
@@ -252,14 +275,13 @@ Proof.
   pose proof (E3 (A6 (inv_dm _ _ _ I))) as Hdm.
   assert (Hd' : s_d s' = if e_ended e then dNone else e_d e).
   { change (s_d s') with (a_d (sabs (S n) s')). rewrite E1, Ee. apply ceol_d. }
-  assert (Hq' : s_q s' <> sSlash).
-  { change (s_q s') with (a_q (sabs (S n) s')). rewrite E1, Ee. apply ceol_q. rewrite <- Ee. exact Hoke. }
+  assert (Hsl' : s_sl s' <= S n) by (rewrite Es', s_eol_sl; lia).
   rewrite C2 in C4, C5. rewrite C2. destruct (e_ended e) eqn:Eend.
   - (* the logical line ends here *)
     destruct E2 as (O1 & O2 & O3).
     unfold close_logical. constructor; cbn [fs_st fs_L fs_lines fs_out a_empty absalg a_cat].
     + rewrite E1. exact C5.
-    + exact Hq'.
+    + exact Hsl'.
     + rewrite O2. intros k [].
     + rewrite O2. reflexivity.
     + rewrite O1, A3, <- (inv_out _ _ _ I).
@@ -279,7 +301,7 @@ Proof.
     destruct E2 as (O1 & O2 & O3).
     constructor; cbn [fs_st fs_L fs_lines fs_out].
     + rewrite E1. exact C5.
-    + exact Hq'.
+    + exact Hsl'.
     + rewrite O2. intros k Hk. apply E4 in Hk. lia.
     + rewrite O2. reflexivity.
     + rewrite O1, A3. exact (inv_out _ _ _ I).
@@ -301,8 +323,8 @@ Qed.
 Lemma inv_init : Inv 1 (fs_init absalg) s_init.
 Proof.
   constructor; cbn.
-  - exact rel_init.
-  - discriminate.
+  - exact (rel_init false).
+  - lia.
   - intros k [].
   - reflexivity.
   - reflexivity.
